@@ -68,6 +68,12 @@ fn css_one(req: &Value) -> Value {
                 .map(|t| json!([t.get_dst_line(), t.get_dst_col(), t.get_src_line(), t.get_src_col(), t.get_name()]))
                 .collect();
             out["map"] = json!(toks);
+            let sm = low.extract_source_map();
+            let toks: Vec<Value> = sm
+                .tokens()
+                .map(|t| json!([t.get_dst_line(), t.get_dst_col(), t.get_src_line(), t.get_src_col(), t.get_name()]))
+                .collect();
+            out["low_map"] = json!(toks);
         }
         out
     })
